@@ -150,6 +150,13 @@ func loadProg(repo string, assumedDir string) (*Prog, error) {
 			}
 		}
 	}
+	for key, specs := range P.specs {
+		for _, s := range specs {
+			if !s.Assumed && P.fns[key] == nil {
+				return nil, fmt.Errorf("%s:%d: contract for unknown function %s", s.File, s.Line, key)
+			}
+		}
+	}
 	P.mergeVariants()
 	if err := P.resolveRefines(); err != nil {
 		return nil, err
@@ -202,6 +209,8 @@ func (P *Prog) mergeVariants() {
 				}
 				sl.Invariants = append(append([]*Clause{}, bl.Invariants...), sl.Invariants...)
 				sl.Hints = append(append([]*Hint{}, bl.Hints...), sl.Hints...)
+				sl.EndHints = append(append([]*Hint{}, bl.EndHints...), sl.EndHints...)
+				sl.PreHints = append(append([]*Hint{}, bl.PreHints...), sl.PreHints...)
 				if sl.Decreases == nil {
 					sl.Decreases = bl.Decreases
 				}
